@@ -681,3 +681,170 @@ def composite_walkers(ctx, repo):
 
 
 C02_EXTRA.append(composite_walkers)
+
+
+def hmtx_trimming(ctx, repo):
+    ctx.rule("HMTX", "hmtx/vmtx: the long-metric run and the side-bearing-only tail are complementary slices at one index; the header count is the length of the kept run; reader and writer repeat the same record format numberOfMetrics times and use a signed 16-bit array for the tail; trailing glyphs take the advance of the last long metric; the trimming loop keeps at least one record", floor=6)
+    mod = repo.mod("ttLib/tables/_h_m_t_x.py")
+    c, d = mod.func("table__h_m_t_x.compile"), mod.func("table__h_m_t_x.decompile")
+    sl = {}
+    for st in ast.walk(c.node):
+        if isinstance(st, ast.Assign) and isinstance(st.value, ast.Subscript) and isinstance(st.value.slice, ast.Slice) and norm(st.value.value) == "metrics":
+            s_ = st.value.slice
+            sl[norm(st.targets[0])] = (norm(s_.lower) if s_.lower else None, norm(s_.upper) if s_.upper else None)
+    ok = sl.get("additionalMetrics", (None,))[0] is not None and sl.get("additionalMetrics") == (sl.get("metrics", (None, None))[1], None) and sl.get("metrics", (1,))[0] is None
+    ctx.ob("HMTX", c.where, f"tail = metrics[{sl.get('additionalMetrics')}], kept = metrics[{sl.get('metrics')}]", ok, "" if ok else "the two slices overlap or leave a gap: a glyph's metrics are written twice or not at all")
+    sa_ = [call for call in calls_in(c.node) if call_name(call) == "setattr" and len(call.args) == 3 and "numberOfMetricsName" in norm(call.args[1])]
+    cnt = [st for st in ast.walk(c.node) if isinstance(st, ast.Assign) and norm(st.targets[0]) == "numberOfMetrics" and norm(st.value) == "len(metrics)"]
+    ok = bool(sa_) and norm(sa_[0].args[2]) == "numberOfMetrics" and bool(cnt) and any(s2.lineno < cnt[0].lineno for s2 in ast.walk(c.node) if isinstance(s2, ast.Assign) and norm(s2.targets[0]) == "metrics" and isinstance(s2.value, ast.Subscript))
+    ctx.ob("HMTX", c.where, "header count = len(metrics) taken after the trim", ok, "" if ok else "numberOfHMetrics no longer equals the number of long records written")
+    fm = [norm(st.value) for f in (c, d) for st in ast.walk(f.node) if isinstance(st, ast.Assign) and norm(st.targets[0]) == "metricsFmt"]
+    ok = len(fm) == 2 and fm[0] == fm[1] and "numberOfMetrics" in fm[0]
+    ctx.ob("HMTX", mod.rel + ":table__h_m_t_x", f"record format on both sides: {fm}", ok)
+    arr = [try_fold(call.args[0]) for f in (c, d) for call in calls_in(f.node) if call_name(call) == "array.array" and call.args]
+    ctx.ob("HMTX", mod.rel + ":table__h_m_t_x", f"tail array typecodes {arr}", arr == ["h", "h"])
+    la = [norm(st.value) for st in ast.walk(d.node) if isinstance(st, ast.Assign) and norm(st.targets[0]) == "lastAdvance"]
+    ctx.ob("HMTX", d.where, f"lastAdvance = {la}", la == ["metrics[-2]"], "" if la == ["metrics[-2]"] else "trailing glyphs must repeat the advance of the last (advance, bearing) pair")
+    w = next((n for n in ast.walk(c.node) if isinstance(n, ast.While)), None)
+    ok = False
+    if w is not None:
+        t = norm(w.test)
+        floor_ = [n for n in ast.walk(w) if isinstance(n, ast.If) and norm(n.test) in ("lastIndex <= 1", "lastIndex < 2", "lastIndex == 1")]
+        ok = t == "metrics[lastIndex - 2][0] == lastAdvance" and bool(floor_) and any(isinstance(b, ast.Break) for b in floor_[0].body)
+    ctx.ob("HMTX", c.where, f"trim loop: while {norm(w.test) if w is not None else None}, stops at one record", ok, "" if ok else "the run of equal trailing advances is compared at the wrong index or can consume every record")
+    sz = [norm(st.value) for st in ast.walk(d.node) if isinstance(st, ast.Assign) and norm(st.targets[0]) == "tableSize"]
+    ctx.ob("HMTX", d.where, f"tableSize = {sz}", sz == ["4 * numberOfMetrics + 2 * numberOfSideBearings"])
+
+
+C02_EXTRA.append(hmtx_trimming)
+
+
+def glyf_delta_codec(ctx, repo):
+    ctx.rule("GLYF-delta", "glyf simple-glyph coordinates: flag bits are the TrueType ones; the one-byte form is chosen exactly for |delta| <= 255 and stores the magnitude with the sign in the 'same' bit, otherwise a signed 16-bit word; the reader adds 'B' for the short flag, 'h' when neither short nor same; a flag repeats at most 255 times and the reader adds one to the stored count; greedy and for-speed writers encode a coordinate the same way", floor=8)
+    mod = repo.mod("ttLib/tables/_g_l_y_f.py")
+    cenv = module_env(repo, mod)
+    want = {"flagOnCurve": 1, "flagXShort": 2, "flagYShort": 4, "flagRepeat": 8, "flagXsame": 16, "flagYsame": 32, "flagOverlapSimple": 64, "flagCubic": 128}
+    got = {k: try_fold(mod.const(k), cenv) for k in want}
+    ctx.ob("GLYF-delta", mod.rel + ":<module>", f"flag bits {got}", got == want)
+    for fn in ("Glyph.compileDeltasGreedy", "Glyph.compileDeltasForSpeed"):
+        f = mod.func(fn)
+        bounds = []
+        for n in ast.walk(f.node):
+            if isinstance(n, ast.Compare) and len(n.ops) >= 2 and all(isinstance(o, ast.LtE) for o in n.ops):
+                lo, hi = try_fold(n.left, cenv), try_fold(n.comparators[-1], cenv)
+                bounds.append((lo, hi))
+        ok = len(bounds) == 2 and all(b == (-255, 255) for b in bounds)
+        ctx.ob("GLYF-delta", f.where, f"one-byte form for deltas in {bounds}", ok, "" if ok else "the magnitude must fit a uint8: [-255, 255], inclusive on both sides")
+        rep = [norm(n) for n in ast.walk(f.node) if isinstance(n, ast.Compare) and norm(n.left) == "repeat" and isinstance(n.ops[0], ast.NotEq)]
+        ctx.ob("GLYF-delta", f.where, f"repeat count capped: {rep}", rep == ["repeat != 255"], "" if rep == ["repeat != 255"] else "the repeat count is one byte")
+        packs = sorted({try_fold(c.args[0], cenv) for c in calls_in(f.node) if call_name(c) == "struct.pack"})
+        ctx.ob("GLYF-delta", f.where, f"long form packed as {packs}", packs == [">h"])
+    # sibling agreement of the short arm (x) between greedy and for-speed
+    def short_arm(fn):
+        f = mod.func(fn)
+        for n in ast.walk(f.node):
+            if isinstance(n, ast.If) and len(n.orelse) == 1 and isinstance(n.orelse[0], ast.If):
+                inner = n.orelse[0]
+                if any("flagXShort" in norm(s) for s in inner.body):
+                    return [norm(s) for s in inner.body]
+        return None
+
+    a, b = short_arm("Glyph.compileDeltasGreedy"), short_arm("Glyph.compileDeltasForSpeed")
+    ctx.ob("GLYF-delta", mod.rel + ":Glyph", "greedy and for-speed writers build the short x form identically", a is not None and a == b, "" if a == b else f"{a} vs {b}")
+    ok = a is not None and any("x = -x" in s for s in a) and any("x > 0" in s and "flagXsame" in s for s in a)
+    ctx.ob("GLYF-delta", mod.rel + ":Glyph.compileDeltasGreedy", "short form: positive sets the 'same' bit, otherwise the magnitude is stored", ok)
+    r = mod.func("Glyph.decompileCoordinatesRaw")
+    adds = []
+    for n in ast.walk(r.node):
+        if isinstance(n, ast.If) and "flagXShort" in norm(n.test):
+            t1 = [try_fold(s.value.right, cenv) for s in n.body if isinstance(s, ast.Assign) and isinstance(s.value, ast.BinOp)]
+            el = n.orelse[0] if len(n.orelse) == 1 and isinstance(n.orelse[0], ast.If) else None
+            t2 = [try_fold(s.value.right, cenv) for s in el.body if isinstance(s, ast.Assign) and isinstance(s.value, ast.BinOp)] if el is not None else []
+            adds = [t1, norm(el.test) if el is not None else None, t2]
+    ok = adds == [["B"], "not flag & flagXsame", ["h"]]
+    ctx.ob("GLYF-delta", r.where, f"reader x format: short -> {adds[0] if adds else None}, {adds[1] if adds else None} -> {adds[2] if adds else None}", ok)
+    rp = [norm(st.value) for st in ast.walk(r.node) if isinstance(st, ast.Assign) and norm(st.targets[0]) == "repeat" and not isinstance(st.value, ast.Constant)]
+    ctx.ob("GLYF-delta", r.where, f"repeat = {rp}", rp == ["data[pos] + 1"], "" if rp == ["data[pos] + 1"] else "the stored count is the number of additional repetitions")
+
+
+C02_EXTRA.append(glyf_delta_codec)
+
+
+def cmap_group_codec(ctx, repo):
+    ctx.rule("CMAP-grp", "cmap formats 12/13: each class's run test and glyph-id expansion describe the same run (12: glyph ids ascend with the characters, expansion is a range; 13: one glyph id, expansion repeats it); _format_step is the per-character glyph-id increment; a group is (first char, last char, first glyph) on both sides and its length is last - first + 1", floor=6)
+    from .otl import _linear
+
+    mod = repo.mod("ttLib/tables/_c_m_a_p.py")
+    for cls, step in (("cmap_format_12", 1), ("cmap_format_13", 0)):
+        c = mod.cls(cls)
+        fs = try_fold(c.attrs.get("_format_step")) if "_format_step" in c.attrs else None
+        run = mod.func(cls + "._IsInSameRun")
+        gid = mod.func(cls + "._computeGIDs")
+        rv = next((n.value for n in ast.walk(run.node) if isinstance(n, ast.Return)), None)
+        conj = rv.values if isinstance(rv, ast.BoolOp) and isinstance(rv.op, ast.And) else []
+        incs = {}
+        for t in conj:
+            if isinstance(t, ast.Compare) and isinstance(t.ops[0], ast.Eq):
+                l, r = _linear(t.left), _linear(t.comparators[0])
+                if l and r and len(l[0]) == 1 and len(r[0]) == 1:
+                    incs[list(l[0])[0]] = r[1] - l[1]
+        ok = fs == step and incs == {"glyphID": step, "charCode": 1}
+        ctx.ob("CMAP-grp", run.where, f"_format_step = {fs}; same run when glyphID == last + {incs.get('glyphID')} and charCode == last + {incs.get('charCode')}", ok, "" if ok else f"format {cls[-2:]} runs advance the glyph id by {step} per character")
+        gv = next((n.value for n in ast.walk(gid.node) if isinstance(n, ast.Return)), None)
+        if step == 1:
+            ok = isinstance(gv, ast.Call) and call_name(gv) == "range" and len(gv.args) == 2 and norm(gv.args[0]) == "startingGlyph" and _linear(gv.args[1]) == ({"startingGlyph": 1, "numberOfGlyphs": 1}, 0)
+        else:
+            ok = norm(gv) == "[startingGlyph] * numberOfGlyphs"
+        ctx.ob("CMAP-grp", gid.where, f"expansion: {norm(gv)}", ok, "" if ok else "the reader expands a group differently from how the writer formed it")
+    d = mod.func("cmap_format_12_or_13.decompile")
+    ln = [st.value for st in ast.walk(d.node) if isinstance(st, ast.Assign) and norm(st.targets[0]) == "lenGroup"]
+    ok = bool(ln) and _linear(ln[0]) == ({"endCharCode": 1, "startCharCode": -1}, 1)
+    ctx.ob("CMAP-grp", d.where, f"lenGroup = {norm(ln[0]) if ln else None}", ok, "" if ok else "a group first..last holds last - first + 1 characters")
+    rg = [c for c in calls_in(d.node) if call_name(c) == "range" and len(c.args) == 2 and norm(c.args[0]) == "startCharCode"]
+    ok = bool(rg) and _linear(rg[0].args[1]) == ({"endCharCode": 1}, 1)
+    ctx.ob("CMAP-grp", d.where, f"characters: {norm(rg[0]) if rg else None}", ok)
+    idx = sorted(norm(st.value.slice) for st in ast.walk(d.node) if isinstance(st, ast.Assign) and isinstance(st.value, ast.Subscript) and norm(st.value.value) == "groups")
+    ctx.ob("CMAP-grp", d.where, f"group fields read at {idx}", idx == ["i * 3", "i * 3 + 1", "i * 3 + 2"])
+    c = mod.func("cmap_format_12_or_13.compile")
+    packs = [[norm(a) for a in call.args[1:]] for call in calls_in(c.node) if call_name(call) == "struct.pack" and try_fold(call.args[0]) == ">LLL"]
+    ok = len(packs) == 2 and all(p == ["startCharCode", "lastCharCode", "startGlyphID"] for p in packs)
+    ctx.ob("CMAP-grp", c.where, f"groups packed as {packs}", ok, "" if ok else "both the in-loop flush and the final flush write (first char, last char, first glyph)")
+    init = [st for st in ast.walk(c.node) if isinstance(st, ast.Assign) and norm(st.targets[0]) in ("lastGlyphID", "lastCharCode") and isinstance(st.value, ast.BinOp)]
+    vals = {norm(st.targets[0]): norm(st.value) for st in init}
+    ok = vals == {"lastGlyphID": "startGlyphID - self._format_step", "lastCharCode": "startCharCode - 1"}
+    ctx.ob("CMAP-grp", c.where, f"run state primed with {vals}", ok)
+
+
+C02_EXTRA.append(cmap_group_codec)
+
+
+def cmap14_default_runs(ctx, repo):
+    from .otl import _linear
+
+    ctx.rule("CMAP-uvs", "cmap format 14 default-UVS ranges: the reader expands additionalCount + 1 code points; the writer's run counter starts at -1, grows by one per entry, is written as cnt - 1 when an entry breaks the run (the counter already includes that entry) and as cnt at the end, and restarts at 0", floor=4)
+    mod = repo.mod("ttLib/tables/_c_m_a_p.py")
+    d = mod.func("cmap_format_14.decompile")
+    cn = [st.value for st in ast.walk(d.node) if isinstance(st, ast.Assign) and norm(st.targets[0]) == "cnt"]
+    ok = bool(cn) and _linear(cn[0]) == ({"addtlCnt": 1}, 1)
+    ctx.ob("CMAP-uvs", d.where, f"cnt = {norm(cn[0]) if cn else None}", ok)
+    rg = [c for c in calls_in(d.node) if call_name(c) == "range" and len(c.args) == 2 and norm(c.args[0]) == "firstBaseUV"]
+    ok = bool(rg) and _linear(rg[0].args[1]) == ({"firstBaseUV": 1, "cnt": 1}, 0)
+    ctx.ob("CMAP-uvs", d.where, f"range expanded: {norm(rg[0]) if rg else None}", ok)
+    c = mod.func("cmap_format_14.compile")
+    loop = next((n for n in ast.walk(c.node) if isinstance(n, ast.For) and norm(n.iter) == "defList"), None)
+    if loop is None:
+        raise AnalysisError("cmap_format_14.compile: default UVS loop not found")
+    inloop = [call for call in calls_in(loop) if call_name(call) == "struct.pack" and try_fold(call.args[0]) == ">3sB"]
+    p = parent(loop)
+    blk = next(b for b in (getattr(p, "body", []), getattr(p, "orelse", [])) if loop in b)
+    after = [call for st in blk[blk.index(loop) + 1 :] for call in calls_in(st) if call_name(call) == "struct.pack" and try_fold(call.args[0]) == ">3sB"]
+    ok = len(inloop) == 1 and _linear(inloop[0].args[2]) == ({"cnt": 1}, -1) and len(after) >= 1 and _linear(after[0].args[2]) == ({"cnt": 1}, 0)
+    ctx.ob("CMAP-uvs", c.where, f"in-loop flush writes {norm(inloop[0].args[2]) if inloop else None}, final flush writes {norm(after[0].args[2]) if after else None}", ok, "" if ok else "additionalCount is (entries in the run) - 1: the counter has already counted the entry that broke the run")
+    init = [try_fold(st.value) for st in blk[: blk.index(loop)] if isinstance(st, ast.Assign) and norm(st.targets[0]) == "cnt"]
+    reset = [try_fold(st.value) for st in ast.walk(loop) if isinstance(st, ast.Assign) and norm(st.targets[0]) == "cnt"]
+    inc = [norm(st) for st in loop.body if isinstance(st, ast.AugAssign) and norm(st.target) == "cnt"]
+    ok = init == [-1] and reset == [0] and inc == ["cnt += 1"]
+    ctx.ob("CMAP-uvs", c.where, f"counter: init {init}, step {inc}, restart {reset}", ok)
+
+
+C02_EXTRA.append(cmap14_default_runs)
